@@ -62,7 +62,50 @@ def deref_sites(F):
                 for n in f.walk():
                     if n.get('k') == 'Call' and n.get('opc') in ('->', '*') and n['c'][0].get('k') == 'Ref' and n['c'][0].get('d') == v['d']:
                         out.append((f, a, k, n, v['n']))
+    # handed (directly or through the local) to a callee whose summary dereferences that parameter without a test
+    from nullflow import NullSummaries
+    ns = _summaries(F)
+    for f in F.funcs.values():
+        locs = {}
+        for v in f.walk():
+            if v.get('k') == 'Var' and v.get('c'):
+                a = v['c'][0]
+                while a.get('k') in ('Construct', 'Cast') and len(a.get('c', [])) == 1:
+                    a = a['c'][0]
+                k = source_kind(a)
+                if k:
+                    reass = [x for x in f.walk() if (x.get('k') == 'Call' and x.get('opc') == '=' or x.get('k') == 'Bin' and x.get('op') == '=') and x.get('c') and x['c'][0].get('k') == 'Ref' and x['c'][0].get('d') == v['d']]
+                    if not reass:
+                        locs[v['d']] = (a, k, v['n'])
+        for c in f.walk():
+            if c.get('k') != 'Call' or c.get('opc'):
+                continue
+            args = c['c'][1:] if c.get('mc') else c['c']
+            for i, a in enumerate(args):
+                b = a
+                while b.get('k') in ('Construct', 'Cast') and len(b.get('c', [])) == 1:
+                    b = b['c'][0]
+                src = None
+                if b.get('k') == 'Ref' and b.get('d') in locs:
+                    src = locs[b['d']]
+                elif source_kind(b):
+                    src = (b, source_kind(b), None)
+                if src is None:
+                    continue
+                for ck in F.callee_keys(c):
+                    if i in ns.unsafe.get(ck, {}):
+                        out.append((f, src[0], src[1], c, src[2]))
     return out
+
+
+_ns_cache = {}
+
+
+def _summaries(F):
+    from nullflow import NullSummaries
+    if id(F) not in _ns_cache:
+        _ns_cache[id(F)] = NullSummaries(F)
+    return _ns_cache[id(F)]
 
 
 def discharged(F, f, src, kind, deref, var):
